@@ -56,6 +56,9 @@ BENIGN = [
     " , ",
     ";",
     "\t \tdescription mixed indent",
+    # text that is not in Unicode normal form C (decomposed accents as macOS writes them, compatibility signs)
+    " description Cafe\u0301 uplink, 10 k\u2126 pull-up, 3 \u212b, 0 \u212a",
+    "banner motd ^ A\u030angstro\u0308m site \u037e ^",
     "set pksecret \"\"",
     "enable secret ''",
     "y" * 5000,
@@ -116,6 +119,10 @@ LINES_W = [
     ["lit: neighbor ", "a4", "lit: remote-as ", "as", "lit: description ", "w", "lit:-edge"],
     ["lit:vrf ", "w0", "lit: description ", "w0", "lit:->", "w1", "lit: ", "w1"],
     ["lit: match community ", "w1", "lit:_", "w0", "lit: ", "w0"],
+    # characters whose lower-case form has another length (U+0130) in front of the word, in the same token and in another
+    ["lit:hostname \u0130ZM\u0130R-\u0130-", "w", "lit:-r1"],
+    ["lit: description \u0130\u0130\u0130\u0130\u0130\u0130\u0130\u0130\u0130", "w"],
+    ["lit:set location \"\u0130stanbul ", "w", "lit:\""],
 ]
 
 AS_POOL = ["64999", "4200000123", "64700", "23456", "65123", "70000"]
